@@ -15,6 +15,9 @@ pub struct WbStats { pub nontrivial: u64, pub samples: Vec<String>, pub meta: se
 pub const RECORDED: &[&str] = &[
     "xlsx:row-attributes-without-cells", "xlsx:sheet-color-not-exported", "xlsx:implicit-intersection-added",
     "xlsx:unparsable-formula-reinterpreted", "xlsx:orphan-spill-cell-becomes-value", "xlsx:export-panic-dangling-name-scope",
+    "xlsx:export-panic-unevaluated", "xlsx:sheet-name-whitespace-normalised", "xlsx:cf-dxf-false-flag-dropped", "xlsx:cf-text-equals-becomes-formula",
+    "xlsx:cf-timeperiod-between-becomes-formula", "xlsx:cf-iconset-icons-and-colors-not-kept", "xlsx:cf-iconrating-color-not-kept",
+    "xlsx:border-diagonal-flags-lost", "xlsx:formula-text-not-decoded", "xlsx:error-nimpl-display", "escape-lookalike-then-control",
 ];
 
 fn rc_of(key: &str) -> (i32, i32) {
@@ -52,43 +55,91 @@ fn field<'a>(l: &'a str, name: &str) -> &'a str {
 fn cell_words(l: &str) -> Vec<&str> { l.split(" {fmt=").next().unwrap_or("").split(' ').collect() }
 fn style_part(l: &str) -> &str { match l.find(" {fmt=") { Some(p) => &l[p..], None => "" } }
 
-/// root-cause class of one difference, computed from the original workbook and the two lines
-pub fn classify(orig: &Model, d: &Diff) -> String {
+fn is_ctrl(c: char) -> bool { let n = c as u32; n <= 8 || n == 11 || n == 12 || (14..=31).contains(&n) }
+/// escape_xml changes the text beyond the XML entities (a control character or an _xHHHH_ look-alike)
+fn xlsx_escaped(t: &str) -> bool {
+    let v: Vec<char> = t.chars().collect();
+    for i in 0..v.len() {
+        if is_ctrl(v[i]) { return true; }
+        if i + 6 < v.len() && v[i] == '_' && v[i + 1] == 'x' && v[i + 6] == '_' && v[i + 2..i + 6].iter().all(|c| c.is_ascii_hexdigit()) { return true; }
+    }
+    false
+}
+fn ws_name_fragile(n: &str) -> bool { n.contains(['\t', '\n', '\r']) }
+
+/// root-cause class of one difference, computed from the original workbook and the two lines;
+/// None = a value-only difference (same formula, same style): a consequence of another difference
+pub fn classify(orig: &Model, d: &Diff) -> Option<String> {
+    use ironcalc_base::types::Cell;
     let shape = match (&d.before, &d.after) { (Some(_), Some(_)) => "~", (Some(_), None) => "-", _ => "+" };
     let wb = &orig.workbook;
     let si = sheet_of(&d.key);
     let ws = wb.worksheets.get(si);
+    let unclassified = Some(format!("xlsx:unclassified:{}{}", d.kind, shape));
     match (d.kind.as_str(), &d.before, &d.after) {
         ("row", Some(b), None) => {
             let r: i32 = b.split(' ').nth(2).unwrap_or("0").parse().unwrap_or(0);
             let has_cells = ws.map(|w| w.sheet_data.get(&r).map(|m| !m.is_empty()).unwrap_or(false)).unwrap_or(false);
-            if !has_cells { return "xlsx:row-attributes-without-cells".into(); }
+            if !has_cells { return Some("xlsx:row-attributes-without-cells".into()); }
         }
         ("sheet", Some(b), Some(a)) => {
             let strip = |l: &str| { let c = field(l, "color="); l.replace(&format!("color={c}"), "color=*") };
-            if strip(b) == strip(a) && field(b, "color=") != "None" && field(a, "color=") == "None" { return "xlsx:sheet-color-not-exported".into(); }
+            if strip(b) == strip(a) && field(b, "color=") != "None" && field(a, "color=") == "None" { return Some("xlsx:sheet-color-not-exported".into()); }
+            if ws.map(|w| ws_name_fragile(&w.name)).unwrap_or(false) { return Some("xlsx:sheet-name-whitespace-normalised".into()); }
+        }
+        ("cf", Some(b), Some(a)) => {
+            if b.replace("Some(false)", "None") == *a { return Some("xlsx:cf-dxf-false-flag-dropped".into()); }
+            if b.contains(" Text { operator: Equals") && a.contains(" Formula {") { return Some("xlsx:cf-text-equals-becomes-formula".into()); }
+            if (b.contains("time_period: Between") || b.contains("time_period: NotBetween")) && a.contains(" Formula {") { return Some("xlsx:cf-timeperiod-between-becomes-formula".into()); }
+            if b.contains(" IconSet {") && a.contains(" IconSet {") { return Some("xlsx:cf-iconset-icons-and-colors-not-kept".into()); }
+            if b.contains(" IconRating {") && a.contains(" IconRating {") { return Some("xlsx:cf-iconrating-color-not-kept".into()); }
         }
         ("cell", Some(b), Some(a)) => {
-            let (wb_, wa) = (cell_words(b), cell_words(a));
             let (row, col) = rc_of(&d.key);
-            if let Some(w) = ws {
-                if is_orphan_spill(w, row, col) && wb_.get(3) == Some(&"spill") && wa.get(3) != Some(&"spill") && style_part(b) == style_part(a) { return "xlsx:orphan-spill-cell-becomes-value".into(); }
-                if let Some(ironcalc_base::types::Cell::CellFormula { f, .. }) | Some(ironcalc_base::types::Cell::ArrayFormula { f, .. }) = w.cell(row, col) {
-                    if let Some((ironcalc_base::expressions::parser::Node::ParseErrorKind { .. }, _)) = orig.parsed_formulas.get(si).and_then(|v| v.get(*f as usize)) {
-                        if style_part(b) == style_part(a) { return "xlsx:unparsable-formula-reinterpreted".into(); }
-                    }
+            let w = match ws { Some(w) => w, None => return unclassified };
+            let cell = w.cell(row, col);
+            if style_part(b) != style_part(a) {
+                let norm = |s: &str| s.replace("diagonal_up: true", "diagonal_up: false").replace("diagonal_down: true", "diagonal_down: false");
+                if b.replace(style_part(b), "") == a.replace(style_part(a), "") && norm(style_part(b)) == norm(style_part(a)) { return Some("xlsx:border-diagonal-flags-lost".into()); }
+                return Some("xlsx:unclassified:cell-style".into());
+            }
+            let (wb_, wa) = (cell_words(b), cell_words(a));
+            if let Some(Cell::SharedString { si: idx, .. }) = cell {
+                if wb.shared_strings.get(*idx as usize).map(|t| crate::collides(t)).unwrap_or(false) { return Some("escape-lookalike-then-control".into()); }
+            }
+            if is_orphan_spill(w, row, col) && wb_.get(3) == Some(&"spill") && wa.get(3) != Some(&"spill") { return Some("xlsx:orphan-spill-cell-becomes-value".into()); }
+            let ftext: Option<String> = match cell { Some(Cell::CellFormula { f, .. }) | Some(Cell::ArrayFormula { f, .. }) => w.shared_formulas.get(*f as usize).cloned(), _ => None };
+            if let Some(Cell::CellFormula { f, .. }) | Some(Cell::ArrayFormula { f, .. }) = cell {
+                if let Some((ironcalc_base::expressions::parser::Node::ParseErrorKind { .. }, _)) = orig.parsed_formulas.get(si).and_then(|v| v.get(*f as usize)) {
+                    return Some("xlsx:unparsable-formula-reinterpreted".into());
                 }
             }
-            if style_part(b) == style_part(a) && wb_.len() == wa.len() && wb_.len() > 4 && (wb_[3] == "formula" || wb_[3] == "array") {
-                let same_but_formula = wb_.iter().zip(wa.iter()).enumerate().all(|(i, (x, y))| i == 4 || x == y);
-                if same_but_formula && wa[4].replace('@', "") == wb_[4].replace('@', "") && wa[4].matches('@').count() > wb_[4].matches('@').count() {
-                    return "xlsx:implicit-intersection-added".into();
-                }
+            if let Some(t) = &ftext {
+                if xlsx_escaped(t) { return Some("xlsx:formula-text-not-decoded".into()); }
+                if wb.worksheets.iter().any(|x| ws_name_fragile(&x.name) && t.contains(&x.name)) { return Some("xlsx:sheet-name-whitespace-normalised".into()); }
+                if t.contains("#N/IMPL") { return Some("xlsx:error-nimpl-display".into()); }
             }
+            if b.contains(" err NIMPL ") && a.contains(" err ERROR ") { return Some("xlsx:error-nimpl-display".into()); }
+            // same formula text?
+            let fa = a.split(" Some(").nth(1); let fb = b.split(" Some(").nth(1);
+            if let (Some(t), Some(fa), Some(fb)) = (&ftext, fa, fb) {
+                let ta = fa.split("\") ").next().unwrap_or(""); let tb = fb.split("\") ").next().unwrap_or("");
+                if ta != tb {
+                    if ta.replace('@', "") == tb.replace('@', "") && ta.matches('@').count() > tb.matches('@').count() { return Some("xlsx:implicit-intersection-added".into()); }
+                    let _ = t;
+                    return Some("xlsx:unclassified:formula-text".into());
+                }
+                return None; // same formula, same style: the value follows something else
+            }
+            if wb_.get(3) == Some(&"spill") && wa.get(3) == Some(&"spill") { return None; }
+        }
+        ("cell", Some(b), None) | ("cell", None, Some(b)) => {
+            // spill cells appear / vanish with the value of their anchor
+            if b.contains(" spill ") { return None; }
         }
         _ => {}
     }
-    format!("xlsx:unclassified:{}{}", d.kind, shape)
+    unclassified
 }
 
 /// the snapshot the imported workbook is compared with: the original, saved in the internal format,
@@ -110,9 +161,15 @@ pub fn check_model(m: &Model) -> Result<usize, Vec<(String, String)>> {
             let ds = diff(&a, &b);
             if ds.is_empty() { return Ok(a.len()); }
             let mut out = vec![];
+            let mut followers = vec![];
             for d in &ds {
-                let c = classify(m, d);
+                let c = match classify(m, d) { Some(c) => c, None => { followers.push(d); continue; } };
                 out.push((c, format!("- {}\n+ {}", d.before.clone().unwrap_or_default().chars().take(700).collect::<String>(), d.after.clone().unwrap_or_default().chars().take(700).collect::<String>())));
+            }
+            // value-only differences are consequences when a root difference exists; alone they are a finding
+            if out.is_empty() {
+                if followers.is_empty() { return Ok(a.len()); }
+                for d in followers { out.push(("xlsx:value-changed".to_string(), format!("- {}\n+ {}", d.before.clone().unwrap_or_default().chars().take(700).collect::<String>(), d.after.clone().unwrap_or_default().chars().take(700).collect::<String>()))); }
             }
             Err(out)
         }
@@ -158,7 +215,7 @@ pub fn workbook_part(a: &Args, or: &mut Oracle) -> WbStats {
                             if let Trip::Ok(b0) = round_trip(um.get_model()) {
                                 for d in diff(&a0, &b0) {
                                     let cut = |o: &Option<String>| o.clone().unwrap_or_default().split(" {fmt=").next().unwrap_or("").chars().take(260).collect::<String>();
-                                    println!("   [{}]\n     - {}\n     + {}", classify(um.get_model(), &d), cut(&d.before), cut(&d.after));
+                                    println!("   [{:?}]\n     - {}\n     + {}", classify(um.get_model(), &d), cut(&d.before), cut(&d.after));
                                 }
                             }
                         }
